@@ -847,7 +847,13 @@ def run_ledger(ctx, focus, res=None, n_trees=None, per_tree=None, with_tall=True
             parent_hash = rng.choice(tree.blocks[-8:]).hash() if rng.random() < 0.7 else rng.choice(tree.blocks).hash()
             if tall and k % 2 == 0:
                 parent_hash = rng.choice(tree.blocks[2:45]).hash()      # far behind the head
-            if cfg == 2 and k % 4 == 1:
+            if klass == "bad_curve_point":
+                # (needs a parent at which an output paying a key that is no curve point is unspent)
+                with_garbage = [b for b in tree.blocks if any(o.public_key.public_key in chain.GARBAGE_KEYS
+                                                              for o in tree.utxo(b.hash()).values())]
+                if with_garbage:
+                    parent_hash = rng.choice(with_garbage[-4:]).hash()
+            elif cfg == 2 and k % 4 == 1:
                 # directly on a block AT the checkpoint horizon: the first height that is fully validated
                 at_h = [b for b in tree.blocks if b.height == consensus.MAX_KNOWN_HASH_HEIGHT]
                 if at_h:
